@@ -7,4 +7,10 @@ require (
 	github.com/risor-io/risor v0.0.0
 )
 
+require (
+	golang.org/x/mod v0.41.0 // indirect
+	golang.org/x/sync v0.23.0 // indirect
+	golang.org/x/tools v0.50.0
+)
+
 replace github.com/risor-io/risor => /repo
